@@ -4,6 +4,8 @@ from __future__ import annotations
 
 import ast
 
+from sa.astutil import after_block, precedes  # statement order (never line numbers)
+
 from sa.astutil import (
     arg_or_kw,
     call_name,
@@ -402,7 +404,7 @@ def r4_sar_siblings(ctx):
     if ok:
         pert_stmt = [s for s in lpb.body if isinstance(s, ast.AugAssign) and dotted(s.target) == fb["ref"] and isinstance(s.op, ast.Add)][0]
         first_mask = [s for s in lpb.body if ">=" in norm(s)][0]
-        okp = pert_stmt.lineno < first_mask.lineno
+        okp = precedes(lpb, pert_stmt, first_mask)
         ctx.check(okp, b.qual + "#perturb-first", "reference perturbed before the comparison" if okp else "comparison happens before the reference is perturbed", where=b, node=pert_stmt)
     # models' wiring
     for q, fn, extra in ((f"{RE}.sar_adc:sar_adc", "apply_sar_adc", {}), (f"{RE}.sar_adc_with_noise:sar_adc_with_noise", "apply_sar_adc_with_noise", {})):
